@@ -8,18 +8,15 @@ From Golem Require Import Skiplist.Model.
 Import ListNotations.
 Open Scope Z_scope.
 
-Definition to_op (c : cop) : op :=
-  match c with CPut k v h => Put k v h | CGet k => Get k | CRemove k => Remove k end.
-
 Definition oz_eqb := opt_eqb Z.eqb.
 Definition entry_eqb (a b : Z * list (option Z)) : bool :=
   Z.eqb (fst a) (fst b) && list_eqb oz_eqb (snd a) (snd b).
 
-Fixpoint steps_agree (cmp : Z -> Z -> comparison) (lv : nat) (univ : list Z) (h : heap) (l : list (cop * obs)) : bool :=
+Fixpoint steps_agree (cmp : Z -> Z -> comparison) (lv : nat) (univ : list Z) (h : heap) (l : list (op * obs)) : bool :=
   match l with
   | [] => true
   | (c, ob) :: r =>
-      let (h', a) := step cmp lv h (to_op c) in
+      let (h', a) := step cmp lv h c in
       Z.eqb a (ans ob)
       && lz_eqb (map (get cmp lv h') univ) (gets ob)
       && list_eqb entry_eqb (print h') (pr ob)
